@@ -34,6 +34,7 @@ Inductive lact :=
 | LRelease (ch : nat)     (* Release of one subscription of ch (m.mtx region) *)
 | LAddPeer (p : nat)      (* AddPeerStream *)
 | LDropPeer (p : nat)     (* session goroutine exit: delete(m.peers) *)
+| LReplace (p : nat)      (* AddPeerStream for the tuple of an executing stream: the old session is cancelled, the new stream is pending *)
 | LWake                   (* the loop takes the wake token *)
 | LInit                   (* first m.mtx region of the loop body *)
 | LSweep.                 (* second m.mtx region + writes of subChanges *)
@@ -60,6 +61,12 @@ Definition lstep (s : lstate) (a : lact) : lstate :=
   | LAddPeer p =>
       if mem_nat p (l_all s) then s
       else LState (l_ch s) (l_pubbed s) (l_inc s ++ [p]) (l_started s) (p :: l_all s) (l_wire s) true (l_phase s) (l_ghost s)
+  | LReplace p =>
+      if mem_nat p (l_started s) then
+        LState (l_ch s) (l_pubbed s) (l_inc s ++ [p]) (filter (fun x => negb (Nat.eqb x p)) (l_started s)) (l_all s)
+               (l_wire s) true (l_phase s)
+               (l_ghost s || match l_phase s with PGap => true | _ => false end)
+      else s
   | LDropPeer p =>
       LState (l_ch s) (l_pubbed s) (l_inc s) (filter (fun x => negb (Nat.eqb x p)) (l_started s)) (l_all s)
              (l_wire s) (l_wake s) (l_phase s) (l_ghost s)
